@@ -1,5 +1,6 @@
 (* Properties/C05.v — A failing service only affects what depends on it.  Statements only. *)
-From V Require Import Base.Util Gql.Ast Gql.RefExec Model.Plan Model.MergeRes Model.Gateway Proofs.ExecProofs.
+From V Require Import Base.Util Gql.Ast Gql.RefExec Model.Plan Model.MergeRes Model.Gateway Proofs.ExecProofs Model.MergeRes Proofs.MergeOrder Proofs.MergeConfine.
+From Coq Require Import Permutation.
 
 (* Each failing service is named in an error: whatever the plan, the services, the fault assignment and the fuel,
    every error the step execution records carries the identity of the step's service (after fix bb4e4d3). *)
@@ -23,3 +24,25 @@ Theorem C05_every_downstream_error_names_its_service : forall G fschema W op var
   Forall (fun e => downstream_kind (ge_kind e) = true -> ge_service e = true) (r_errors (oc_response oc)).
 Proof. exact gateway_errors_named. Qed.
 Print Assumptions C05_every_downstream_error_names_its_service.
+
+(* "every other value is unchanged", at the merge (execution_result.go:15-182).  [same_but K a b]: the decoded trees are
+   equal as Go values except under object keys of K.  One lookup result, merged into ANY destination tree at ANY insertion
+   point, changes that tree only under the response keys its items carry. *)
+Theorem C05_one_result_writes_only_its_keys : forall s, wf_items s -> forall d ip e,
+  M s ip d = Ok e -> same_but (allkeys s) d e.
+Proof. exact M_confined. Qed.
+Print Assumptions C05_one_result_writes_only_its_keys.
+
+(* The fault-free execution merges the lookup results [rs], in their arrival order, into the root result and obtains T.  In
+   an execution in which the results [lost] are missing (their steps failed, or were never run because a step above failed)
+   and the others arrive in any order, the merge succeeds as well and its data differs from T only under the response keys
+   the lost results carry - provided results whose relative order changes are independent (the planner hypothesis of C06,
+   false on finding KF-key-clash-across-types).  PARTIAL: this is the merged data before null propagation and shaping, and
+   lookups only (a failed root step is covered by C06_root_results_commute's nil case, not here). *)
+Theorem C05_lost_lookups_only_remove_their_fields_partial : forall base rs kept lost T,
+  Forall is_child rs -> Forall wf_res lost -> Permutation rs (kept ++ lost) ->
+  (forall x y, before x y rs -> before y x (kept ++ lost) -> indep_res x y) ->
+  merge_from base rs = Ok T ->
+  exists T', merge_from base kept = Ok T' /\ same_but (keys_of lost) T' T.
+Proof. exact lost_lookups_confined. Qed.
+Print Assumptions C05_lost_lookups_only_remove_their_fields_partial.
